@@ -169,8 +169,6 @@ def oracle(case, obs):
 def classify(case, obs, f):
     # an assignment made on an EXPIRED lazy object sets just that attribute; the next read of another column reloads
     # every attribute from the row and the object stops showing the pending value (it is still written at the next flush)
-    if f.get('assigned_while_expired'):
-        return 'lazy_assignment_on_expired_object_hidden_by_reload'
     return None
 
 
